@@ -12,5 +12,6 @@ def run(ctx):
     s = ctx['seed'] + 2
     return run_parts(ctx, [
         Part('joins', 'corr_joins', 'run', [s, 300 if q else 6000, MEASURES], specs={'sound_spec'}),
-        Part('index_code', 'corr_index', 'run', [s, 100 if q else 2000]),
+        Part('index_code', 'corr_index', 'run', [s, 100 if q else 2000], count_exceptions=False),
+        Part('join_loop_code', 'corr_joingen', 'run', [s, 150 if q else 3000], count_exceptions=False),
     ], RULE)
